@@ -67,9 +67,24 @@ func cmdContinue(p *lang.Process) error {
 	}
 
 	scope := p.Scope.Id
+
+	// The target is a block that encloses `continue`, never a later sibling
+	// that happens to have the same name (eg a second loop in the same body).
+	encloses := func(proc *lang.Process) bool {
+		for a := p.Parent; a != nil; a = a.Parent {
+			if a == proc {
+				return true
+			}
+			if a.Id == scope || a.Parent == a {
+				return false
+			}
+		}
+		return false
+	}
+
 	proc := p.Parent
 	for {
-		if proc.Name.String() == name {
+		if proc.Name.String() == name && encloses(proc) {
 			return nil
 		}
 		if proc.Id == scope {
